@@ -4,9 +4,12 @@
 package copier
 
 import (
+	"errors"
 	"reflect"
+	"regexp"
 	"strconv"
 	"strings"
+	"sync"
 
 	"github.com/ecodeclub/ekit/bean/option"
 )
@@ -83,3 +86,161 @@ func (d *VerifDyn) CopyTo(src, dst reflect.Value, opts ...VerifOpt) error {
 }
 
 func (d *VerifDyn) Trie() string { return VerifTrie(d.r) }
+
+// ---- error classes ---------------------------------------------------------------------------
+//
+// VerifErrClass maps an error of this package to the token of the Lean model
+//
+//	err:kind:<field>:<srcKind>:<dstKind> | err:typemismatch:<field> | err:multiptr:<field> |
+//	err:type (entry type is not a struct) | err:convtype | err:other
+//
+// WITHOUT knowing the wording of any message: every class is recognised by a template obtained from
+// the package's own constructor (newErrKindNotMatchError, newErrTypeNotMatchError, newErrMultiPointer,
+// newErrTypeError) applied to marker arguments — the markers' places become capture groups, all the
+// rest is literal — and, where the arguments can be recovered, by re-building the error with the
+// constructor and comparing. errConvertFieldTypeNotMatch is a sentinel.
+
+type verifSrcT struct{ VerifMarkerA int }
+type verifDstT struct{ VerifMarkerB int }
+type verifMapT map[verifSrcT]verifDstT
+
+const verifFieldMark = "\u2039verif-field-mark\u203a"
+
+// verifTemplate: the anchored regexp of msg with every occurrence of marks[i] replaced by groups[i];
+// order[k] = index of the mark the k-th capture group stands for.
+func verifTemplate(msg string, marks, groups []string) (*regexp.Regexp, []int) {
+	var b strings.Builder
+	var order []int
+	b.WriteString("^")
+	lit := 0
+	flush := func(to int) {
+		b.WriteString(regexp.QuoteMeta(msg[lit:to]))
+	}
+	for i := 0; i < len(msg); {
+		hit := -1
+		for k, m := range marks {
+			if m != "" && strings.HasPrefix(msg[i:], m) {
+				hit = k
+				break
+			}
+		}
+		if hit < 0 {
+			i++
+			continue
+		}
+		flush(i)
+		b.WriteString(groups[hit])
+		order = append(order, hit)
+		i += len(marks[hit])
+		lit = i
+	}
+	flush(len(msg))
+	b.WriteString("$")
+	re, err := regexp.Compile("(?s)" + b.String())
+	if err != nil {
+		return nil, nil
+	}
+	return re, order
+}
+
+// verifMatch returns the text captured for every mark (the first capture of each), or nil.
+func verifMatch(re *regexp.Regexp, order []int, nmarks int, msg string) []string {
+	if re == nil {
+		return nil
+	}
+	m := re.FindStringSubmatch(msg)
+	if m == nil {
+		return nil
+	}
+	out := make([]string, nmarks)
+	seen := make([]bool, nmarks)
+	for k, idx := range order {
+		if !seen[idx] {
+			out[idx], seen[idx] = m[k+1], true
+		} else if out[idx] != m[k+1] {
+			return nil
+		}
+	}
+	for _, s := range seen {
+		if !s {
+			return nil
+		}
+	}
+	return out
+}
+
+var verifTpl struct {
+	once                        sync.Once
+	kind, typ, multi, entry     *regexp.Regexp
+	kindO, typO, multiO, entryO []int
+	entryN                      int
+	kindByName                  map[string]reflect.Kind
+}
+
+func verifInitTemplates() {
+	t := &verifTpl
+	const word, any = `(\S+)`, `(.+)`
+	k1, k2 := reflect.Kind(9001), reflect.Kind(9002)
+	t.kind, t.kindO = verifTemplate(newErrKindNotMatchError(k1, k2, verifFieldMark).Error(),
+		[]string{verifFieldMark, k1.String(), k2.String()}, []string{word, word, word})
+	ts, td := reflect.TypeOf(verifSrcT{}), reflect.TypeOf(verifDstT{})
+	t.typ, t.typO = verifTemplate(newErrTypeNotMatchError(ts, td, verifFieldMark).Error(),
+		[]string{verifFieldMark, ts.String(), td.String()}, []string{word, any, any})
+	t.multi, t.multiO = verifTemplate(newErrMultiPointer(verifFieldMark).Error(), []string{verifFieldMark}, []string{word})
+	// newErrTypeError prints the type and its kind: the kind's place is found by comparing the messages
+	// of two marker types whose kinds (struct, map) share neither a first nor a last letter
+	tm := reflect.TypeOf(verifMapT{})
+	m1 := strings.ReplaceAll(newErrTypeError(ts).Error(), ts.String(), verifFieldMark)
+	m2 := strings.ReplaceAll(newErrTypeError(tm).Error(), tm.String(), verifFieldMark)
+	p := 0
+	for p < len(m1) && p < len(m2) && m1[p] == m2[p] {
+		p++
+	}
+	q := 0
+	for q < len(m1)-p && q < len(m2)-p && m1[len(m1)-1-q] == m2[len(m2)-1-q] {
+		q++
+	}
+	const kindMark = "\u2039verif-kind-mark\u203a"
+	if m1[p:len(m1)-q] == ts.Kind().String() && m2[p:len(m2)-q] == tm.Kind().String() {
+		m1 = m1[:p] + kindMark + m1[len(m1)-q:]
+	}
+	t.entry, t.entryO = verifTemplate(m1, []string{verifFieldMark, kindMark}, []string{any, word})
+	for _, i := range t.entryO {
+		if i+1 > t.entryN {
+			t.entryN = i + 1
+		}
+	}
+	t.kindByName = map[string]reflect.Kind{}
+	for k := reflect.Invalid; k <= reflect.UnsafePointer; k++ {
+		t.kindByName[k.String()] = k
+	}
+}
+
+func VerifErrClass(err error) string {
+	if err == nil {
+		return "ok"
+	}
+	t := &verifTpl
+	t.once.Do(verifInitTemplates)
+	msg := err.Error()
+	if m := verifMatch(t.kind, t.kindO, 3, msg); m != nil {
+		ks, ok1 := t.kindByName[m[1]]
+		kd, ok2 := t.kindByName[m[2]]
+		if !ok1 || !ok2 || newErrKindNotMatchError(ks, kd, m[0]).Error() == msg {
+			return "err:kind:" + m[0] + ":" + m[1] + ":" + m[2]
+		}
+	}
+	if m := verifMatch(t.typ, t.typO, 3, msg); m != nil {
+		return "err:typemismatch:" + m[0]
+	}
+	if m := verifMatch(t.multi, t.multiO, 1, msg); m != nil && newErrMultiPointer(m[0]).Error() == msg {
+		return "err:multiptr:" + m[0]
+	}
+	if m := verifMatch(t.entry, t.entryO, t.entryN, msg); m != nil {
+		return "err:type"
+	}
+	if errors.Is(err, errConvertFieldTypeNotMatch) {
+		return "err:convtype"
+	}
+	return "err:other"
+}
